@@ -20,6 +20,8 @@ pub struct Drive<'a, T> {
     pub random_cases: u32,
     pub build_random: &'a (dyn Fn(&mut Ent) -> (StepCase, T) + Sync),
     pub classify: &'a (dyn Fn(&StepCase, &Judged, &T, &mut Stats) + Sync),
+    /// use the quirks of every property's open findings (see StepEval::foreign_quirks_ok)
+    pub all_quirks: bool,
 }
 
 impl<'a, T> Drive<'a, T> {
@@ -28,7 +30,7 @@ impl<'a, T> Drive<'a, T> {
         let nshards = self.nshards;
         par_shards(ctx, nshards, |shard| {
             let w = Worker::new(ctx);
-            let ev = StepEval::new(ctx, self.property, self.aspects);
+            let ev = if self.all_quirks { StepEval::new_all_quirks(ctx, self.property, self.aspects) } else { StepEval::new(ctx, self.property, self.aspects) };
             let mut runner = proptest_runner(mix(ctx.seed, self.salt + shard as u64), 1);
             let ent = entropy();
             let mut idx = 0usize;
